@@ -16,6 +16,7 @@ from .. import build, cppdrv, expr as E, gen, monitors, oracle as O
 from . import common as K
 
 ID = "C06"
+REACH_TARGETS = [('EKF.remove_innovation', 'formak.python:ExtendedKalmanFilter.remove_innovation'), ('EKF.sensor_model', 'formak.python:ExtendedKalmanFilter.sensor_model')]
 LEVEL = "exploration"
 RULE = ("helper units: (m, k, y, S_inv) cases, m in {1,2,3,4,5,8,18,32}, k in {0.5,1,2,3,5,7.25,1e-3,1e3}; "
         "exact class (NIS exactly representable, placed at threshold, nextafter(threshold,+-inf), "
